@@ -198,7 +198,17 @@ class QueueProcessorMixin:
 
         logger.debug("Handling %s (execution=%s)", get_message_type_name(message), execution_id or "N/A")
 
-        handler.handle(message)
+        try:
+            handler.handle(message)
+        except Exception:
+            # The handler may have committed its processed-mark before raising
+            # (e.g. a post-commit queue.push failed). The bloom has not seen that
+            # mark, so a trusted negative would skip the durable check on
+            # redelivery and re-run the handler. A positive only forces the
+            # is_message_processed() lookup, so marking here is always safe.
+            if self.config.enable_deduplication and message_id is not None:
+                get_deduplicator().mark_seen(message_id)
+            raise
 
         # Mark message as processed for deduplication
         if self.config.enable_deduplication and message_id is not None:
